@@ -36,7 +36,9 @@ def obligation_properties(name, kind, info, fn):
         if kind == "wire":
             return {"C02"}
         if kind in ("refuses-invalid", "no-exc", "none-use", "index", "writer-pre"):
-            return {"C16"} | ({"C02"} if kind in ("index", "none-use") else set())
+            # an exception class that is neither SerializationError nor the writer's ValueError is wrong for invalid
+            # objects (C16) and for valid ones (C02: the bytes are never produced)
+            return {"C16"} | ({"C02"} if kind in ("index", "none-use", "no-exc") else set())
         if kind == "frame":
             return {"C19"}
         return {"C02", "C16"}           # loop invariants carry both the bytes and the validity prefix
